@@ -804,9 +804,9 @@ theorem profiles_history {p : Proj} (h : Partition p) (Ps : List (List String)) 
     · rw [this.1 k]; exact (profiles_forgets_partition h P Q).1 k
     · rw [this.2 k]; exact (profiles_forgets_partition h P Q).2.1 k
 
-/-! ## round 5: `Services.GetProfiles` (after its `fix:` commit) -/
+/-! ## round 5: `Services.GetProfiles` (an unordered list: compared through its sorted view) -/
 
-/-- `GetProfiles` lists exactly the profiles named by a service of the map, each once, sorted … -/
+/-- (the sorted view of) `GetProfiles` lists exactly the profiles named by a service of the map, each once … -/
 theorem getProfiles_exact (svcs : AL Svc) :
     (∀ x, x ∈ getProfiles svcs ↔ ∃ kv ∈ svcs, x ∈ kv.2.profiles) ∧ (getProfiles svcs).Nodup ∧
     (getProfiles svcs).Pairwise (· ≤ ·) := by
@@ -816,7 +816,7 @@ theorem getProfiles_exact (svcs : AL Svc) :
   · unfold getProfiles
     exact (sortNames_perm _).nodup_iff.2 (nodup_eraseDups _)
 
-/-- … hence a function of the map and not of its iteration order (before the fix it was not: `Neg/C15.lean`) -/
+/-- … hence a function of the map and not of its iteration order (the raw slice is not: `Neg/C15.lean`) -/
 theorem getProfiles_perm {svcs svcs' : AL Svc} (e : svcs.Perm svcs') : getProfiles svcs = getProfiles svcs' := by
   unfold getProfiles
   apply sortNames_eq_of_perm
@@ -826,8 +826,8 @@ theorem getProfiles_perm {svcs svcs' : AL Svc} (e : svcs.Perm svcs') : getProfil
   rw [List.mem_eraseDups, List.mem_eraseDups, List.mem_flatMap, List.mem_flatMap]
   exact ⟨fun ⟨a, ha, hx⟩ => ⟨a, e.mem_iff.1 ha, hx⟩, fun ⟨a, ha, hx⟩ => ⟨a, e.mem_iff.2 ha, hx⟩⟩
 
-theorem getProfiles_order_dependent_before_fix : ¬Neg.GetProfilesPermInvariant :=
-  Neg.getProfiles_not_perm_invariant_before_fix
+theorem getProfiles_raw_order_dependent : ¬Neg.GetProfilesPermInvariant :=
+  Neg.getProfiles_raw_order_dependent
 
 /-- the profiles `GetProfiles` reports for the disabled services named in a `WithServicesEnabled` call are the
 profiles that call activates (`wantedProfiles`), as a set -/
